@@ -101,3 +101,36 @@ func (w *bsiReplayBuf) Read(p []byte) (int, error) {
 }
 
 func ioEOFReplay() error { return bsiEOF }
+
+// An index without planes (documented as legal for FromBitmaps: "Panics if len(bms) < 1" only; also what ReadFrom leaves
+// after a stream that holds only the existence bitmap).
+func bsiReplayNoPlanes() *BSI {
+	b := &BSI{}
+	b.FromBitmaps([]Bitmap{{}})
+	return b
+}
+
+func TestReplayBSI64MarshalNoPlanes(t *testing.T) {
+	defer func() {
+		if r := recover(); r != nil {
+			t.Errorf("MarshalBinary of an index without planes panics: %v", r)
+		}
+	}()
+	b := bsiReplayNoPlanes()
+	if _, err := b.MarshalBinary(); err != nil {
+		t.Fatal(err)
+	}
+}
+
+func TestReplayBSI64SetValueNoPlanes(t *testing.T) {
+	defer func() {
+		if r := recover(); r != nil {
+			t.Errorf("SetValue on an index without planes panics: %v", r)
+		}
+	}()
+	b := bsiReplayNoPlanes()
+	b.SetValue(1, 5)
+	if v, ok := b.GetValue(1); !ok || v != 5 {
+		t.Errorf("got (%d,%v), want (5,true)", v, ok)
+	}
+}
